@@ -89,7 +89,7 @@ def registry_history(tier, seed):
     fails, n_eval, seen_fn = [], 0, set()
     shapes = [([8], 0), ([3, 8], 1), ([8, 2], 0)] + ([([2, 8, 3], 1)] if tier == "thorough" else [([2, 8, 3], 1)])
     for shape, k in shapes:
-        for nh in (0, 2):
+        for nh in (0, 2, 3):
             for name, fn, _ in _registry(rng):
                 if name not in PROCESSING:
                     continue
@@ -98,7 +98,9 @@ def registry_history(tier, seed):
                     dims = [("f2" if d == "t2" else d) for d in dims]
                 vals = (np.arange(1, int(np.prod(shape)) + 1, dtype=float).reshape(shape) ** 1.5) * np.exp(0.3j)
                 coords = [np.linspace(0.0, 2.0, s) if i == k else np.arange(s, dtype=float) for i, s in enumerate(shape)]
-                hist = [("step%d" % j, {"p": [1, j], "q": np.arange(3.0)}) for j in range(nh)]
+                real = ["numpy.mean", "autophase", "average", "integrate", "window", "numpy.sum", "normalized"]
+                hist = [((real[(j + len(name)) % len(real)] if j % 2 == 0 else "step%d" % j), {"p": [1, j], "q": np.arange(3.0)})
+                        for j in range(nh)]
                 d = dnp.DNPData(vals, list(dims), coords, proc_attrs=copy.deepcopy(hist))
                 res = None
                 with warnings.catch_warnings():
